@@ -165,6 +165,42 @@ def main():
         except Exception as e:  # noqa
             pk["other_errors"] += 1
             res["failures"].append(dict(desc, what="zonal.mean accessor raised %s: %s" % (type(e).__name__, e), other=True))
+    # grouped mean through the accessor: the number of groups the kernel loops over is worked out by the accessor glue; every time step
+    # belongs to a group and must be written, whatever the order of the labels (last label not the largest, cut cycles, descending)
+    for gi, glab in enumerate([list(np.arange(54) % 36), [0, 1, 2, 0, 1], [3, 2, 1, 0], [1, 0], list(np.arange(20) % 7)]):
+        pk = res["per_kernel"].setdefault("mean_grp (accessor)", dict(runs=0, index_errors=0, poison_diffs=0, other_errors=0))
+        pk["runs"] += 1
+        res["runs"] += 1
+        T = len(glab)
+        dt = ["int16", "float32", "int64"][gi % 3]
+        data = np.round(rng.gamma(2.0, 60.0, size=(2, 2, T))).astype(dt)
+        data[0, 0, ::5] = -9999
+        desc = dict(kernel="mean_grp (accessor)", tag="labels %s... dtype %s" % (glab[:8], dt), args=[brief(data), brief(np.array(glab))])
+        try:
+            da = xr.DataArray(data, dims=("y", "x", "time"), coords={"time": np.arange(T)}, attrs={"nodata": -9999})
+            want = np.full(data.shape, -9999.0)
+            for g in set(glab):
+                ix = [i for i, v in enumerate(glab) if v == g]
+                for a in range(2):
+                    for b in range(2):
+                        v = [float(data[a, b, i]) for i in ix if data[a, b, i] != -9999]
+                        if v:
+                            want[a, b, ix] = float(np.float32(sum(v) / len(v)))
+            outs = []
+            for rep in range(2):
+                junk = [np.full(data.size * 4, [12345.0, -777.0][rep], dtype="float32") for _ in range(8)]      # dirty the heap differently
+                del junk
+                outs.append(np.asarray(da.hdc.algo.mean_grp(np.array(glab, dtype="int16")).transpose("y", "x", "time").values, dtype="float64"))
+            if not same(outs[0], outs[1]) or not np.allclose(outs[0], want, rtol=1e-6, atol=1e-6):
+                pk["poison_diffs"] += 1
+                res["failures"].append(dict(desc, what="mean_grp through the accessor: time steps of some group were never written (stale memory) or "
+                                                       "differ from the group means"))
+        except IndexError as e:
+            pk["index_errors"] += 1
+            res["failures"].append(dict(desc, what="out-of-bounds access (IndexError from the bounds-checked kernel) through the mean_grp accessor: %s" % e))
+        except Exception as e:  # noqa
+            pk["other_errors"] += 1
+            res["failures"].append(dict(desc, what="mean_grp accessor raised %s: %s" % (type(e).__name__, e), other=True))
     # controls: the harness must see a real out-of-bounds access and a real unwritten cell
     from numba import njit
 
